@@ -157,7 +157,7 @@ def gen_groups(ctx):
     pool = [gen_history(rng, rng.rint(4, 6) if quick else rng.rint(5, 8), names)
             for _ in range((300 if tree == "main" else 100) if quick else 900)]
     if tree == "main":
-      per_group = 10 if quick else 24
+      per_group = 8 if quick else 24
     else:
       per_group = 5 if quick else 16
     for k, (mode, thr, eps, eigh, pcs) in enumerate(
